@@ -69,6 +69,8 @@ PROPS = {
                 gen_args=[], topics=slice_of(ALL_TOPICS + ['disconnect'], outs=GATED)),
 }
 
+PROPS['C18'] = dict(modules=['Hagall.Props.C18'], profiles=['latency', 'mixed'], n=(240, 4000), focus={'signedLatency', 'pingResp'},
+                    extra=['latency_stats'], topics=slice_of(['signedLatency', 'pingResp', 'ping']))
 
 # every property's obligations include the facts it rests on (regenerated from the source on every run)
 ABS = {'C14': ['Hagall.Gen.AbsCustom'], 'C17': ['Hagall.Gen.AbsFlags'], 'C04': ['Hagall.Gen.AbsDispatch'],
